@@ -158,7 +158,12 @@ class Number(Parser):
         stream.take()
         while _isdigit(stream.peek()):
             out += stream.take()
-        output.append(int(out))
+        try:
+            value = int(out)
+        except ValueError:
+            # more digits than int() converts (sys.get_int_max_str_digits)
+            stream.error('<number>')
+        output.append(value)
 
     def __str__(self):
         return '<number>'
